@@ -1725,3 +1725,181 @@ fn bit_set_rejections() {
     bs_rejected("bits_less", "comparison");
     bs_rejected("into_iter", "function `BS::into_iter` not found");
 }
+
+// ------------------------------------------------------------------------------------------------ archetype-shaped code
+
+const AR: &str = r#"
+pub struct Arch { refresh_listeners: BTreeSet<Ptr>, event_listeners: SparseMap<Idx, HList>, count: u32 }
+pub struct Archs { archetypes: Slab<Arch>, other: u32 }
+impl Arch {
+    fn register(&mut self, info: &mut Info) {
+        if info.filter().matches(|idx| self.column_of(idx).is_some()) {
+            if self.count > 0 {
+                info.handler_mut().refresh(self);
+            }
+            self.refresh_listeners.insert(info.ptr());
+        }
+        if let (Some(expr), EventId::Targeted(event_id)) = (info.targeted(), info.received()) {
+            if expr.matches(|idx| self.column_of(idx).is_some()) {
+                if let Some(list) = self.event_listeners.get_mut(event_id.index()) {
+                    list.insert(info.ptr());
+                } else {
+                    let mut list = HList::new();
+                    list.insert(info.ptr());
+                    self.event_listeners.insert(event_id.index(), list);
+                }
+            }
+        }
+    }
+    fn irrefutable_names(&self, info: &Info) -> u32 { if let (a, EventId::Global(b)) = (self.count, info.received()) { a } else { 0 } }
+    fn unknown_enum(&self, x: Other) -> u32 { if let Other::A(y) = x { y } else { 0 } }
+    fn map_without_decl(&mut self, k: usize) -> Option<u32> { let v = self.refresh_listeners.get_mut(k)?; Some(1) }
+    fn mut_arg_not_state(&mut self, info: Info) { self.register(&mut info); }
+}
+impl Archs {
+    fn register(&mut self, info: &mut Info) {
+        for (_, arch) in &mut self.archetypes {
+            arch.register(info);
+        }
+    }
+    fn remove(&mut self, info: &Info) {
+        for (_, arch) in &mut self.archetypes {
+            arch.refresh_listeners.remove(&info.ptr());
+            if let EventId::Targeted(id) = info.received() {
+                if let Some(list) = arch.event_listeners.get_mut(id.index()) {
+                    list.remove(info.ptr());
+                }
+            }
+        }
+    }
+    fn touches_self(&mut self) { for (_, arch) in &mut self.archetypes { self.other = 1; } }
+    fn bad_pattern(&mut self) { for arch in &mut self.archetypes { arch.count = 1; } }
+}
+"#;
+
+fn ar_opts(fns: &[&str]) -> Options {
+    let mut all: Vec<String> = vec!["register".into()];
+    all.extend(fns.iter().filter(|f| **f != "register").map(|s| s.to_string()));
+    let p = |a: &str, b: &str| (a.to_string(), b.to_string());
+    Options {
+        impl_type: "Arch".into(),
+        fns: all,
+        type_map: vec![p("Arch", "Arch"), p("Info", "Info"), p("CAcc", "CA"), p("Ptr", "Key"), p("Idx", "Nat"), p("EventId", "Bool × Nat"), p("BTreeSet", "List Key"), p("HList", "HList"), p("SparseMap", "SMap"), p("Slab", "Slab Arch"), p("Other", "Other")],
+        structs: vec!["Archs".into()],
+        maps: vec![("SparseMap".into(), "smGet".into(), "smSet".into()), ("Slab".into(), "slabGet".into(), "slabSet".into())],
+        iter_muts: vec![("Slab".into(), "slabMap".into(), "slabMapState".into())],
+        enums: vec![p("EventId", "Global(Idx)|Targeted(Idx)")],
+        variant_map: vec![p("EventId::Global", "(false, $1)"), p("EventId::Targeted", "(true, $1)")],
+        prims: vec![
+            p("Info::filter(&self) -> &CAcc", "Info.filter"), p("Info::targeted(&self) -> Option<&CAcc>", "Info.targeted"), p("Info::received(&self) -> EventId", "Info.received"),
+            p("Info::ptr(&self) -> Ptr", "Info.key"), p("Info::handler_mut(&mut self) -> Info", "_"), p("Info::refresh(&mut self, &Arch)", "Info.refresh"),
+            p("CAcc::matches(&self, impl FnMut(Idx) -> bool) -> bool", "CA.matches"), p("Arch::column_of(&self, Idx) -> Option<usize>", "Arch.colIdx"),
+            p("Idx::index(self) -> usize", "_"), p("BTreeSet::insert(&mut self, _) -> bool", "setInsert"), p("BTreeSet::remove(&mut self, _) -> bool", "setRemove"),
+            p("HList::new() -> HList", "HList.empty"), p("HList::insert(&mut self, Ptr)", "HList.insert"), p("HList::remove(&mut self, Ptr) -> bool", "HList.remove"),
+            p("SparseMap::insert(&mut self, _, _) -> Option<HList>", "smInsert"),
+        ],
+        source_label: "ar.rs".into(),
+        ..Default::default()
+    }
+}
+
+fn ar_ok(f: &str) -> String {
+    let out = translate(AR, &ar_opts(&[f])).unwrap_or_else(|e| panic!("{f}: {e}"));
+    body_of(&out, &f.replace("::", "."))
+}
+
+fn ar_rejected(f: &str, needle: &str) {
+    match translate(AR, &ar_opts(&[f])) {
+        Ok(o) => panic!("{f} was translated:\n{o}"),
+        Err(e) => assert!(e.0.contains(needle), "{f}: message `{}` does not mention `{needle}`", e.0),
+    }
+}
+
+#[test]
+fn tuple_if_let_foreign_enum_map_borrow_and_identity_accessor() {
+    assert_eq!(
+        ar_ok("register"),
+        "def register (self : Arch) (info : Info) : Arch × Info :=
+  let (self, info) :=
+    if (CA.matches (Info.filter info) (fun idx => Option.isSome (Arch.colIdx self idx))) = true then
+      let (self, info) :=
+        if self.count > 0 then
+          let r1 := Info.refresh info self
+          let info := r1
+          (self, info)
+        else (self, info)
+      let (r2, q1) := setInsert self.refresh_listeners (Info.key info)
+      let self := { self with refresh_listeners := r2 }
+      (self, info)
+    else (self, info)
+  match Info.targeted info, Info.received info with
+  | some expr, (true, event_id) =>
+    if (CA.matches expr (fun idx => Option.isSome (Arch.colIdx self idx))) = true then
+      let at1 := event_id
+      (match smGet self.event_listeners at1 with
+      | some list =>
+        let r3 := HList.insert list (Info.key info)
+        let list := r3
+        let self := { self with event_listeners := smSet self.event_listeners at1 list }
+        (self, info)
+      | none =>
+        let list := HList.empty
+        let r4 := HList.insert list (Info.key info)
+        let list := r4
+        let (r5, q2) := smInsert self.event_listeners event_id list
+        let self := { self with event_listeners := r5 }
+        (self, info))
+    else (self, info)
+  | _, _ =>
+    (self, info)"
+    );
+    let out = translate(AR, &ar_opts(&["register"])).unwrap();
+    assert!(out.contains("`Info::handler_mut(&mut self) -> Info` is taken as the identity (the part borrowed is modelled as the whole value)"), "{out}");
+}
+
+#[test]
+fn loop_over_a_declared_container_with_and_without_state() {
+    assert_eq!(
+        ar_ok("Archs::register"),
+        "def Archs.register (self : Archs) (info : Info) : Archs × Info :=
+  let (m1, info) :=
+    slabMapState self.archetypes info (fun _ arch info =>
+        let (r1, p1) := Evenio.Gen.Arch.register arch info
+        let arch := r1
+        let info := p1
+        (arch, info))
+  let self := { self with archetypes := m1 }
+  (self, info)"
+    );
+    assert_eq!(
+        ar_ok("Archs::remove"),
+        "def Archs.remove (self : Archs) (info : Info) : Archs :=
+  let m1 :=
+    slabMap self.archetypes (fun _ arch =>
+        let (r1, q1) := setRemove arch.refresh_listeners (Info.key info)
+        let arch := { arch with refresh_listeners := r1 }
+        match Info.received info with
+        | (true, id) =>
+          let at1 := id
+          (match smGet arch.event_listeners at1 with
+          | some list =>
+            let (r2, q2) := HList.remove list (Info.key info)
+            let list := r2
+            let arch := { arch with event_listeners := smSet arch.event_listeners at1 list }
+            arch
+          | none =>
+            arch)
+        | _ =>
+          arch)
+  { self with archetypes := m1 }"
+    );
+}
+
+#[test]
+fn archetype_rejections() {
+    ar_rejected("unknown_enum", "not an enum of this file or given by --enum");
+    ar_rejected("map_without_decl", "call of `BTreeSet::get_mut`, which is neither translated earlier in this run nor given by --prim");
+    ar_rejected("mut_arg_not_state", "argument passed on as `&mut` state");
+    ar_rejected("Archs::touches_self", "does not take `&mut self`");
+    ar_rejected("Archs::bad_pattern", "loop pattern (only `(k, v)` over this container)");
+}
